@@ -186,6 +186,16 @@ def canon(t):
             return b
         if b == C(1) and a[0] in BOOLK:
             return a
+    if k == 'cmp' and t[1] in ('eq', 'ne') and t[2] == 8:
+        # a materialised truth value compared with 1 is the truth value itself (or its negation)
+        for x, y in ((t[3], t[4]), (t[4], t[3])):
+            if y == C(1) and isinstance(x, tuple) and x[0] in BOOLK:
+                if t[1] == 'eq':
+                    return x
+                if x[0] in ('feq', 'fne'):
+                    return ({'feq': 'fne', 'fne': 'feq'}[x[0]],) + x[1:]
+                if x[0] == 'cmp' and x[1] in ('eq', 'ne'):
+                    return ('cmp', {'eq': 'ne', 'ne': 'eq'}[x[1]]) + x[2:]
     if k == 'cmp' and t[1] in ('eq', 'ne'):
         a, b = t[3], t[4]
         if repr(a) > repr(b):
